@@ -160,6 +160,13 @@ Conv(c, i, a) ==
     [] c = "XybToLin" -> XybToLinF(i)   [] c = "XybToRgb" -> XybToRgbF(i, a.tc, a.cp)  [] c = "XybToYuv" -> XybToYuvF(i, a)
     [] c = "HslToLin" -> HslToLinF(i)
 
+\* the composite conversions are, by definition above, chains of two stages; the conformance harness logs each composite
+\* next to the same chain issued by hand ("comp" events) and TraceSession compares outcome and result bit for bit
+ChainOf(c) == CASE c = "RgbToXyb" -> <<"RgbToLin", "LinToXyb">> [] c = "XybToRgb" -> <<"XybToLin", "LinToRgb">>
+                [] c = "YuvToLin" -> <<"YuvToRgb", "RgbToLin">> [] c = "YuvToXyb" -> <<"YuvToLin", "LinToXyb">>
+                [] c = "LinToYuv" -> <<"LinToRgb", "RgbToYuv">> [] c = "XybToYuv" -> <<"XybToLin", "LinToYuv">>
+                [] OTHER -> << >>
+
 \* the reverse conversion of each conversion (C14 symmetry)
 Rev(c) == CASE c = "YuvToRgb" -> "RgbToYuv" [] c = "RgbToYuv" -> "YuvToRgb"
             [] c = "RgbToLin" -> "LinToRgb" [] c = "LinToRgb" -> "RgbToLin"
